@@ -466,8 +466,8 @@ impl AsmParser {
                     (-range..range).contains(&val)
                 }
                 Bits::Unsigned(num_bits) => {
-                    let range = 2_u16.pow(num_bits as u32 - 1);
-                    (0..range).contains(&val)
+                    let max = u16::MAX >> (16 - num_bits as u32);
+                    val <= max
                 }
             }
         };
